@@ -12,6 +12,7 @@ import ast
 
 from .. import kinds as K
 from ..model import AnalysisError, unparse, walk_body_shallow
+from .util import *  # noqa: F401,F403
 from .util import call_name, call_recv, calls_in, need, norm, registrations, where
 
 TECHNIQUE = "value-kind dataflow to Deferred.callback/errback, must-hold fire guards, CFG dominance of early exits"
